@@ -48,14 +48,21 @@ def t_max (K N : Nat) (t0 dt : α) : α := t0 + nat (N - K) * dt
 /-- `std::clamp(v, lo, hi)` = `(v < lo) ? lo : (hi < v) ? hi : v` -/
 def clamp (v lo hi : α) : α := if v < lo then lo else if hi < v then hi else v
 
+/-- What happens to the quotient `(t − t0)/dt` before the `int64_t` cast.  On the pinned tree:
+    nothing (identity).  A planned `fix:` of the int64 overflow for `(t−t0)/dt ≥ 2^63` clamps the
+    quotient to `[−1, N]` first (`std::clamp(q, -1., double(N))`); when it lands, replace the body
+    by `clamp q (-(nat 1)) (nat N)` — `window_in_bounds`, `outside_range`, `inside` in
+    SmoothProps/C13.lean go through `clampQ_spec` only. -/
+def clampQ (_N : Nat) (q : α) : α := q
+
 /-- the raw interval index `static_cast<int64_t>((t − t0) / dt)` -/
-def rawIndex (t0 dt t : α) : Int := ScalarTrunc.trunc ((t - t0) / dt)
+def rawIndex (N : Nat) (t0 dt t : α) : Int := ScalarTrunc.trunc (clampQ N ((t - t0) / dt))
 
 /-- interval index and local parameter after the three clamp branches (lines 57-69):
     `istar < 0 → (0, 0)`;  `istar + K + 1 > N → (N − K − 1, 1)`;
     otherwise `(istar, clamp((t − t0 − istar·dt)/dt, 0, 1))`. -/
 def select (K N : Nat) (t0 dt t : α) : Nat × α :=
-  let q := rawIndex t0 dt t
+  let q := rawIndex N t0 dt t
   if q < 0 then (0, nat 0)
   else if q + ((K : Int) + 1) > (N : Int) then (N - K - 1, nat 1)
   else (q.toNat, clamp ((t - t0 - nat q.toNat * dt) / dt) (nat 0) (nat 1))
